@@ -6,8 +6,8 @@ import os, json
 import vlib
 
 
-def enumerate_cases(module, cfg, timeout=900):
-    r = vlib.tlc(module, cfg, workers=8, timeout=timeout)
+def enumerate_cases(module, cfg, timeout=900, env=None):
+    r = vlib.tlc(module, cfg, workers=8, timeout=timeout, env=env)
     if r.rc != 0:
         raise vlib.FrameworkError("case enumeration failed: %s/%s\n%s" % (module, cfg, r.out[-1500:]))
     return r.printed("CASE"), r
